@@ -251,11 +251,9 @@ Definition check_C07 (c : c07_case) : bool :=
       match build_field s with
       | Err _ => false
       | OK F =>
-          match resample_mesh (fmesh F) n', ofd with
-          | OK _, Some o => resample_match F n' o
-          | Err _, None => true
-          | _, _ => false
-          end
+          (* the new centre takes the source cell that contains it (half-open cells: a centre exactly on a
+             source cell boundary belongs to the cell above) - the modelled pick, itself a nearest cell *)
+          cmp field_match (field_resample F n') ofd
       end
   | CBlockScale s kind a q1 q2 ofd =>
       match build_field s with
